@@ -92,8 +92,10 @@ Print Assumptions C11_source_unchanged.
    (2) A failure in one of the three steps before the try block (bad identifier, task not found, cycle, nothing
        archivable in the closure) touches no file either.
    (3) An existing regular file named by -o is never written and never removed, whichever step fails.
-   (4) The handler's unlink of the output file (step 11) happens only when the command had ACCEPTED the output location:
-       -o absent or a directory (a generated name is used), or a path that did not exist when the command started. *)
+   (4) The file the command writes -- the -o argument itself, or the generated name cond-archive+<time to the second>.tar.gz in
+       cond-out / in the -o directory -- is written (step 9) and removed by the handler (step 11) only if it did NOT exist when
+       the command looked; whatever existed is refused with nothing touched (since the repair D43 also a generated name that an
+       archive made within the same second already carries). *)
 Theorem C11_refused_archive_touches_nothing : forall p f,
   refused (handle_output_path p) = true ->
   archive_main p f = [1] /\ existsb touches_files (archive_main p f) = false.
@@ -112,10 +114,12 @@ Proof. exact existing_file_is_safe. Qed.
 Print Assumptions C11_existing_file_is_never_written_or_removed.
 
 Theorem C11_output_removed_only_if_it_was_absent : forall p f,
-  existsb removes_output (archive_main p f) = true ->
-  o_given p = false \/ (o_exists p = true /\ o_is_dir p = true) \/
-  (o_exists p = false /\ o_parent_exists p = true /\ o_parent_is_dir p = true).
-Proof. exact unlink_only_what_was_absent. Qed.
+  (existsb removes_output (archive_main p f) = true -> target_existed p = false) /\
+  (existsb writes_output (archive_main p f) = true -> target_existed p = false) /\
+  (target_existed p = true -> archive_main p f = [1]).
+Proof.
+  intros p f. split; [apply unlink_only_what_was_absent|]. split; [apply write_only_what_was_absent|apply existing_target_is_refused].
+Qed.
 Print Assumptions C11_output_removed_only_if_it_was_absent.
 
 (* the temporary index cond-out/version_index_archive.sqlite never outlives the command; a failure inside the try
@@ -137,7 +141,7 @@ Print Assumptions C11_failure_inside_the_try_cleans_up.
    no longer re-raises, or a second statement touching the output file breaks these obligations. *)
 Theorem C11_archive_output_is_the_sources :
   (forall p, decision_code (handle_output_path p) =
-             gen_archive_output_decision (o_given p) (o_exists p) (o_is_dir p) (o_parent_exists p) (o_parent_is_dir p)) /\
+             gen_archive_output_decision (o_given p) (o_exists p) (o_is_dir p) (o_parent_exists p) (o_parent_is_dir p) (o_gen_exists p)) /\
   steps_before_try = gen_archive_before_try /\ steps_try = gen_archive_try /\
   steps_on_error = gen_archive_on_error /\ steps_finally = gen_archive_finally /\
   gen_archive_tar_is_the_only_writer = true.
@@ -170,8 +174,10 @@ Print Assumptions C11_member_list_is_every_row.
    directory) whose tar fails enters 1..9, removes the partial file, re-raises and removes the index; success ends with
    the removal of the index *)
 Example C11_archive_out_nonvacuous :
-  let existing := {| o_given := true; o_exists := true; o_is_dir := false; o_parent_exists := true; o_parent_is_dir := true |} in
-  let fresh := {| o_given := true; o_exists := false; o_is_dir := false; o_parent_exists := true; o_parent_is_dir := true |} in
+  let existing := {| o_given := true; o_exists := true; o_is_dir := false; o_parent_exists := true; o_parent_is_dir := true; o_gen_exists := false |} in
+  let fresh := {| o_given := true; o_exists := false; o_is_dir := false; o_parent_exists := true; o_parent_is_dir := true; o_gen_exists := false |} in
+  let same_second := {| o_given := false; o_exists := false; o_is_dir := false; o_parent_exists := false; o_parent_is_dir := false; o_gen_exists := true |} in
+  handle_output_path same_second = OErrExists /\ archive_main same_second None = [1] /\
   handle_output_path existing = OErrExists /\ archive_main existing None = [1] /\
   handle_output_path fresh = OGiven /\
   archive_main fresh (Some 8%nat) = [1;2;3;4;5;6;7;8;9;11;12;4] /\
